@@ -5,7 +5,7 @@ cd /repo || exit 2
 git diff --quiet || { echo "/repo is dirty"; exit 2; }
 git apply "$patch" || { echo "patch does not apply"; exit 2; }
 for id in "$@"; do
-  out=$(cd /verif && VERIF_SEED=${VERIF_SEED:-1} bin/vcheck "$id" quick 2>&1); rc=$?
+  out=$(cd /verif && VERIF_EVIDENCE_DIR=/verif/.build/evidence-changed-tree VERIF_SEED=${VERIF_SEED:-1} bin/vcheck "$id" quick 2>&1); rc=$?
   echo "== $id exit=$rc: $(echo "$out" | grep -E 'VIOLATION|INCONCLUSIVE|^OK|BUILD' | head -3 | tr '\n' ' ')"
 done
 git checkout -- . && git status --short
